@@ -85,15 +85,41 @@ def run(module, cfg, env=None, workers=16, timeout=900, coverage=False, simulate
     res = TLCResult()
     res.cmd = " ".join(cmd)
     t0 = time.time()
+    # stream the output: record lines are parsed as they arrive (exports reach hundreds of MB), everything else is kept as text
+    import threading
+    proc = subprocess.Popen(cmd, env=e, cwd=wd, stdout=subprocess.PIPE, stderr=subprocess.STDOUT)
+    killed = []
+
+    def _kill():
+        killed.append(True)
+        proc.kill()
+
+    timer = threading.Timer(timeout, _kill)
+    timer.start()
+    other = []
     try:
-        p = subprocess.run(cmd, env=e, cwd=wd, stdout=subprocess.PIPE, stderr=subprocess.STDOUT, timeout=timeout)
-    except subprocess.TimeoutExpired:
+        for raw in proc.stdout:
+            line = raw.decode("utf-8", "replace").rstrip("\n")
+            st = line.strip()
+            if _REC.match(st):
+                try:
+                    res.records.append(json.loads(json.loads(st)))
+                except ValueError:
+                    raise TLCError("unparsable record line: %r" % st[:200])
+            else:
+                other.append(line)
+        proc.wait()
+    finally:
+        timer.cancel()
+        if proc.poll() is None:
+            proc.kill()
+    if killed:
         if own:
             cleanup(wd)
         raise TLCError("TLC timed out after %ss: %s %s" % (timeout, module, cfg))
     res.wall = time.time() - t0
-    res.rc = p.returncode
-    out = p.stdout.decode("utf-8", "replace")
+    res.rc = proc.returncode
+    out = "\n".join(other)
     res.out = out
     shutil.rmtree(meta, ignore_errors=True)
     if own:
@@ -116,7 +142,6 @@ def run(module, cfg, env=None, workers=16, timeout=900, coverage=False, simulate
             d, t = int(cm.group(3)), int(cm.group(4))
             od, ot = res.coverage.get(name, (0, 0))
             res.coverage[name] = (od + d, ot + t)
-    res.records = parse_records(out)
     bad = res.rc not in (0,) and res.violated is None
     if simulate is not None and res.rc == 0:
         bad = False
